@@ -534,7 +534,7 @@ def build(tier):
 
 def run_case(S, U, C):
     n0 = len(S.records)
-    res = S.check_fn(U, C.name, C.spec(), C.pre, mode=C.mode, unwind=C.unwind, timeout=S.cap(C.timeout or 30, (C.timeout or 30) * 3), solver=C.solver, known=C.known,
+    res = S.check_fn(U, C.name, C.spec(), C.pre, mode=C.mode, unwind=C.unwind, timeout=S.cap(max(C.timeout or 0, 150), max(C.timeout or 0, 150) * 2), solver=C.solver, known=C.known,
                      bounds=C.bounds, side=C.side, validate=2 if S.quick else 4)
     if res is not None and C.mode == 'fp': retry_unreproduced(S, U, C, res, n0)
     if res is not None and not S.quick: mutant_twin(S, U, C, res)
